@@ -37,6 +37,78 @@ type Engine struct {
 	repo      string
 	floatIDs  map[string]string
 	preludeDefs map[string]bool
+	useGlobals  bool
+}
+
+// sweepFunctions lists every function of the given packages (by package name) that
+// contains a call to one of the callees (contract keys), closures included.
+func (e *Engine) sweepFunctions(pkgNames, callees []string) []string {
+	e.lookupFunc("")
+	want := map[string]bool{}
+	for _, c := range callees {
+		want[c] = true
+	}
+	inPkg := func(fn *ssa.Function) bool {
+		for f := fn; f != nil; f = f.Parent() {
+			if f.Pkg != nil {
+				for _, p := range pkgNames {
+					if f.Pkg.Pkg.Name() == p && e.inModule(f) {
+						return true
+					}
+				}
+				return false
+			}
+		}
+		return false
+	}
+	var out []string
+	for key, fn := range e.funcs {
+		if fn.Blocks == nil || !inPkg(fn) {
+			continue
+		}
+		hit := false
+		for _, b := range fn.Blocks {
+			for _, in := range b.Instrs {
+				ci, ok := in.(ssa.CallInstruction)
+				if !ok {
+					continue
+				}
+				c := ci.Common()
+				k := ""
+				if c.IsInvoke() {
+					k = invokeKey(c)
+				} else if callee := c.StaticCallee(); callee != nil {
+					k = funcKey(callee)
+				}
+				if want[k] {
+					hit = true
+				}
+			}
+		}
+		if hit {
+			out = append(out, key)
+		}
+	}
+	sort.Strings(out)
+	return out
+}
+
+// synthContract gives a function without contract the weakest one (arbitrary effects),
+// so that global call-site clauses can be checked inside it.
+func (e *Engine) synthContract(key string) {
+	if _, ok := e.cs.Contracts[key]; ok {
+		return
+	}
+	fn := e.lookupFunc(key)
+	c := &Contract{Key: key, Loops: map[int]*LoopContract{}, CallAsserts: map[string][]*Clause{}, Note: "synthesised for a call-site sweep", Synth: true}
+	if fn != nil {
+		for _, p := range fn.Params {
+			c.Params = append(c.Params, p.Name())
+		}
+	}
+	c.Modifies = []Expr{&EIdent{"$heap"}}
+	c.ModSrc = []string{"$heap"}
+	e.cs.Contracts[key] = c
 }
 
 func newEngine(repo string) *Engine {
